@@ -14,7 +14,6 @@ Oracles (DESIGN.md section 5, C14):
                     format, wrong object type in the file: an Exception must be raised.
 Workload: enumeration of ALL_CLASSES / ALL_CLASS_DICT and of the XCEvalSerializable subclasses, random parameters.
 """
-import itertools
 import os
 import shutil
 import tempfile
@@ -746,7 +745,6 @@ def _rand_kernel(kind, n1, rng):
 
 
 KERNEL_KINDS = ["const*rbf", "rbf", "subset-slice", "subset-list", "agpr", "arbf", "poly", "sum", "exp"]
-RBF_KERNEL_KINDS = ["const*rbf", "rbf", "subset-slice"]  # what the C RBFEvaluator constructor accepts
 
 
 def _rand_feval(spec, n1, rng, nctrl=10, amp=0.5):
